@@ -22,6 +22,8 @@ Call == /\ More /\ Shape
                                        /\ ChkB("random walk from x0 with steps 1/sqrt(n)", WalkOK(Ev.in, Ev.out, Ev.from, Ev.to, Ev.c1, Ev.x0), Ev.x0)
              [] Ev.op = "resample"  -> /\ ChkB("frame", Frame(Ev.in, Ev.out, Ev.from, Ev.to, 1..NCols(Ev.in)), "outside window changed")
                                        /\ ChkB("window rows come from the window", FromWindow(Ev.in, Ev.out, Ev.from, Ev.to), "foreign row")
+                                       /\ ChkB("a class with requested probability 0 is never drawn",
+                                               \A r \in 1..Len(Ev.out) : InWin(r, Ev.from, Ev.to) => \A z \in 1..Len(Ev.zero) : Ev.out[r][Ev.c1] # Ev.zero[z], Ev.zero)
              [] Ev.op = "cover"     -> ChkB("cover", CoverOK(Ev.in, Ev.out, Ev.c1, Ev.size, Ev.keys), "groups / sample per group / hidden column")
              [] Ev.op = "freq"      -> \A k \in 1..Len(Ev.counts) :     \* aggregate class frequencies of many resampling calls: 6-sigma binomial bound
                                          ChkB("class frequency", ~DefGt(NAbs(NSub(Ev.counts[k], NMul(Ev.n, Ev.probs[k]))),
